@@ -23,6 +23,8 @@ import sys
 import time
 
 VERIF = os.path.dirname(os.path.dirname(os.path.abspath(__file__)))
+# self-test only: where evidence/ and replay/ are written (default: /verif itself)
+OUT = os.environ.get("VERIF_OUT_DIR") or VERIF
 HARNESS = os.path.join(VERIF, "harness")
 BUILD = os.path.join(VERIF, ".build")
 REPO = "/repo"
@@ -92,11 +94,29 @@ def build(variant, outdir=None):
     outdir = outdir or BUILD
     # go.sum of the harness is the repo's (the harness adds no dependency)
     try:
-        shutil.copyfile(os.path.join(REPO, "go.sum"), os.path.join(HARNESS, "go.sum"))
+        with open(os.path.join(REPO, "go.sum"), "rb") as f:
+            want = f.read()
+        have = b""
+        if os.path.exists(os.path.join(HARNESS, "go.sum")):
+            with open(os.path.join(HARNESS, "go.sum"), "rb") as f:
+                have = f.read()
+        if want != have:
+            with open(os.path.join(HARNESS, "go.sum"), "wb") as f:
+                f.write(want)
     except OSError:
         pass
     out = os.path.join(outdir, "vharness-" + variant)
     cmd = ["go", "build", "-tags", "verif", "-o", out]
+    alt = os.environ.get("VERIF_REPO_OVERRIDE")
+    if alt:
+        # self-test only: build against a scratch copy of the repository (never used by registered checks)
+        with open(os.path.join(HARNESS, "go.mod")) as f:
+            mod = f.read().replace("=> /repo", "=> " + alt)
+        altmod = os.path.join(outdir, "go.alt.mod")
+        with open(altmod, "w") as f:
+            f.write(mod)
+        shutil.copyfile(os.path.join(alt, "go.sum"), os.path.join(outdir, "go.alt.sum"))
+        cmd.append("-modfile=" + altmod)
     if variant == "race":
         cmd.append("-race")
     elif variant == "asan":
@@ -323,7 +343,7 @@ def main():
 
     reports = dedupe_reports(reports or [])
 
-    replay_dir = os.path.join(VERIF, "replay", prop)
+    replay_dir = os.path.join(OUT, "replay", prop)
     out_lines = []
     new_viol = 0
     known_hit = {}
@@ -405,7 +425,7 @@ def main():
         "known_findings_matched": {k: n for k, (_, n) in known_hit.items()},
         "notes": notes,
         "info": info,
-        "repo_tree_hash": tree_hash(REPO),
+        "repo_tree_hash": tree_hash(os.environ.get("VERIF_REPO_OVERRIDE") or REPO),
         "harness_tree_hash": tree_hash(HARNESS),
     }
     if exhaustive:
@@ -414,8 +434,8 @@ def main():
         cov["inconclusive_reasons"] = incon[:20]
     ev = {"property_id": prop, "tier": tier, "seed": seed, "level": "exploration", "coverage": cov,
           "assumptions": assumptions, "wall_s": round(wall, 2), "violations": new_viol}
-    os.makedirs(os.path.join(VERIF, "evidence"), exist_ok=True)
-    with open(os.path.join(VERIF, "evidence", prop + ".json"), "w") as f:
+    os.makedirs(os.path.join(OUT, "evidence"), exist_ok=True)
+    with open(os.path.join(OUT, "evidence", prop + ".json"), "w") as f:
         json.dump(ev, f, indent=1, sort_keys=False)
         f.write("\n")
 
